@@ -40,7 +40,7 @@ type routeSpec struct {
 	Top     jmap // merged into the router entry (direct_response, redirect, ...)
 }
 
-// newEngine builds the standard topology: per protocol two healthy upstream hosts in cluster cl-<proto>, a cluster
+// newEngine builds the standard topology: per protocol two healthy upstream hosts in cluster cl-<proto>, single-host clusters -lim and -one, a cluster -mix of a dead address and a live host, a cluster
 // without hosts, a cluster whose only host refuses connections, and the given routes per protocol.
 func newEngine(c *lab.Ctx, protos []string, routes func(proto string) []routeSpec, clusterExtra func(name string) jmap, listenerTweak func(l *mosnListener)) (*engine, error) {
 	return newEngineWith(c, protos, routes, clusterExtra, listenerTweak, nil)
@@ -80,6 +80,12 @@ func newEngineWith(c *lab.Ctx, protos []string, routes func(proto string) []rout
 		if err != nil {
 			return nil, err
 		}
+		// cl-<proto>-mix: one address nobody listens on + one live host: a connect failure followed by a re-selection
+		hostsMix, err := mkHosts("m")
+		if err != nil {
+			return nil, err
+		}
+		hostsMix = append([]jmap{{"address": e.dead, "hostname": "dead", "weight": 1}}, hostsMix...)
 		mk := func(name string, hosts []jmap) jmap {
 			cl := jmap{"name": name, "type": "SIMPLE", "lb_type": "LB_ROUNDROBIN", "max_request_per_conn": 100000, "conn_buffer_limit_bytes": 32768, "hosts": hosts}
 			if clusterExtra != nil {
@@ -89,7 +95,7 @@ func newEngineWith(c *lab.Ctx, protos []string, routes func(proto string) []rout
 			}
 			return cl
 		}
-		cfg.Clusters = append(cfg.Clusters, mk("cl-"+p, hosts), mk("cl-"+p+"-lim", hostsLim), mk("cl-"+p+"-one", hostsOne), mk("cl-"+p+"-empty", []jmap{}), mk("cl-"+p+"-dead", []jmap{{"address": e.dead, "hostname": "dead", "weight": 1}}))
+		cfg.Clusters = append(cfg.Clusters, mk("cl-"+p, hosts), mk("cl-"+p+"-lim", hostsLim), mk("cl-"+p+"-one", hostsOne), mk("cl-"+p+"-mix", hostsMix), mk("cl-"+p+"-empty", []jmap{}), mk("cl-"+p+"-dead", []jmap{{"address": e.dead, "hostname": "dead", "weight": 1}}))
 		var rs []jmap
 		for _, r := range routes(p) {
 			entry := jmap{"match": routeMatch(p, r.Key)}
